@@ -354,6 +354,12 @@ func oracle(c Case) (evid.Info, error) {
 		info.Skip = "rejected"
 		return info, nil
 	}
+	if evid.R.KnownOpen(findingQuantifierNamedFunction) && hasQuantifierNamedFunction(reflect.ValueOf(q1), map[uintptr]bool{}) {
+		// open finding: see known_findings.json; excluded by construction (the shape is recognised on the model)
+		evid.R.Excluded("c07")
+		info.Skip = "excluded:" + findingQuantifierNamedFunction
+		return info, nil
+	}
 	t1, err := emit(q1)
 	if err != nil {
 		return info, fmt.Errorf("accepted %q but the model cannot be emitted: %v", c.Text, err)
@@ -593,6 +599,51 @@ func hasDuplicateMapKeys(text string) bool {
 					return true
 				}
 				stack[len(stack)-1][key] = true
+			}
+		}
+	}
+	return false
+}
+
+const findingQuantifierNamedFunction = "C07-function-named-like-quantifier"
+
+// hasQuantifierNamedFunction: a function invocation whose name is any/all/none/single (the grammar
+// allows these tokens as symbolic names; `NONE(x IN'')` without a blank after IN is such a call).
+func hasQuantifierNamedFunction(v reflect.Value, seen map[uintptr]bool) bool {
+	switch v.Kind() {
+	case reflect.Ptr:
+		if v.IsNil() || seen[v.Pointer()] {
+			return false
+		}
+		seen[v.Pointer()] = true
+		if fi, ok := v.Interface().(*cypher.FunctionInvocation); ok {
+			switch strings.ToLower(fi.Name) {
+			case "any", "all", "none", "single":
+				if len(fi.Namespace) == 0 {
+					return true
+				}
+			}
+		}
+		return hasQuantifierNamedFunction(v.Elem(), seen)
+	case reflect.Interface:
+		return !v.IsNil() && hasQuantifierNamedFunction(v.Elem(), seen)
+	case reflect.Struct:
+		for i := 0; i < v.NumField(); i++ {
+			if hasQuantifierNamedFunction(v.Field(i), seen) {
+				return true
+			}
+		}
+	case reflect.Slice, reflect.Array:
+		for i := 0; i < v.Len(); i++ {
+			if hasQuantifierNamedFunction(v.Index(i), seen) {
+				return true
+			}
+		}
+	case reflect.Map:
+		it := v.MapRange()
+		for it.Next() {
+			if hasQuantifierNamedFunction(it.Value(), seen) {
+				return true
 			}
 		}
 	}
